@@ -639,6 +639,24 @@ impl SeqProp {
                     return Err(Violation::new("supersede.snapshot", format!("keyspace {}: new snapshot {}", ksn(*ks), sv.diff(&want))));
                 }
             }
+            // a clear and a bulk ingestion after the reopen supersede recovered data as well (they install new tree
+            // versions on the objects recovery built): handles and a new snapshot must both show it
+            for (ks, op) in [(1u8, Op::Clear { ks: 1 }), (0u8, Op::Ingest { ks: 0, items: vec![(0, Some(0)), (1, None), (2, Some(1))] })] {
+                if !w.model.contains_key(&ks) || !w.write_enabled(ks) {
+                    continue;
+                }
+                w.apply(&op)?;
+                let want = observe_model(&w.model[&ks], Probe::Lite);
+                let got = observe_ks(&w.ks[&ks], Probe::Lite);
+                if got != want {
+                    return Err(Violation::new("supersede.clear_or_ingest", format!("keyspace {} after `{op}`: {}", ksn(ks), got.diff(&want))));
+                }
+                let snap = w.dbi().snapshot();
+                let sv = observe_view(&snap, &w.ks[&ks], Probe::Lite);
+                if sv != want {
+                    return Err(Violation::new("supersede.snapshot", format!("keyspace {} after `{op}`: new snapshot {}", ksn(ks), sv.diff(&want))));
+                }
+            }
             // keyspace-level supersede: create one, delete one
             if !w.model.contains_key(&2) {
                 w.apply(&Op::Create { ks: 2 })?;
